@@ -85,7 +85,7 @@ KnownRegion(f) ==
   \/ f.clause = "no_loss" /\ f.locus.form = "plain" /\ f.locus.target \in {"internal", "root"}
   \/ f.clause = "grouped" /\ f.locus.got = "future_not_first"
   \/ f.clause = "typing_complete" /\ f.locus.name \in {"IO", "datetime"}
-  \/ f.locus.via = "ctx_core_path" /\ f.locus.got = "beyond_top" /\ f.clause \in {"core_form", "within_top"}
+  \/ f.locus.via = "ctx_core_path" /\ f.locus.target = "core:top" /\ f.locus.got = "beyond_top" /\ f.clause \in {"core_form", "within_top"}
   \/ cx.api = "collector" /\ f.clause \in {"no_self", "once"}
   \/ cx.api = "collector" /\ render = "get_import_statements" /\ f.locus.cur = "package" /\ f.locus.form = "relative" /\ f.clause \in {"resolves", "no_spurious"}
 AsIsOnlyKnown == \A f \in Failures : KnownRegion(f)
